@@ -38,6 +38,39 @@ actions!(act0 = 0, act1 = 1, act2 = 2, act3 = 3, act4 = 4, act5 = 5, act6 = 6, a
 
 const NSTATES: usize = 24;
 
+// RE-ENTRANT use: an action that evaluates another state of ITS OWN machine (evaluation only reads the state table, so the nested
+// call is legal).  line: csmreent outer_true inner_true via_all
+// states: id 1 = outer (action: log 50, evaluate state 2 on the inner data through CASCADE, log 100 + ok), id 2 = inner (action 4).
+// output: ok of the outer call, then the log of fired actions (sorted when the outer call was eval_all_states, whose order is free)
+thread_local! { static CASCADE: RefCell<Option<Box<dyn Fn() -> i128>>> = RefCell::new(None); }
+fn act_cascade() -> Result<(), ActionError> {
+    FIRED.with(|l| l.borrow_mut().push(50));
+    let r = CASCADE.with(|c| c.borrow().as_ref().map(|f| f()).unwrap_or(-5));
+    FIRED.with(|l| l.borrow_mut().push(100 + r));
+    Ok(())
+}
+pub fn run_reent(args: &[i128]) -> Vec<i128> {
+    let (outer_true, inner_true, via_all) = (args[0] != 0, args[1] != 0, args[2] != 0);
+    let causaloids: &'static Vec<BaseCausaloid<'static>> = Box::leak(Box::new(vec![Causaloid::new(0, f_thr, "c"), Causaloid::new(1, f_thr, "c")]));
+    // f_thr: an observation ending in 1 is true, in 0 false; eval_all_states uses the data stored in the state
+    let states: &'static Vec<CausalState<'static, _, _, _, _, _>> = Box::leak(Box::new(vec![
+        CausalState::new(1, 1, if outer_true { 11.0 } else { 10.0 }, &causaloids[0]),
+        CausalState::new(2, 1, if inner_true { 21.0 } else { 20.0 }, &causaloids[1])]));
+    let acts: &'static Vec<CausalAction> = Box::leak(Box::new(vec![CausalAction::new(act_cascade, "outer", 1), CausalAction::new(action_fn(4), "inner", 1)]));
+    let table: &'static Vec<(&CausalState<'static, _, _, _, _, _>, &CausalAction)> = Box::leak(Box::new(vec![(&states[0], &acts[0]), (&states[1], &acts[1])]));
+    let csm = Box::leak(Box::new(CSM::new(&table[..])));
+    let csm: &'static _ = csm;
+    let inner_data = if inner_true { 21.0 } else { 20.0 };
+    CASCADE.with(|c| *c.borrow_mut() = Some(Box::new(move || csm.eval_single_state(2, inner_data).is_ok() as i128)));
+    FIRED.with(|l| l.borrow_mut().clear());
+    let ok = if via_all { csm.eval_all_states().is_ok() } else { csm.eval_single_state(1, if outer_true { 11.0 } else { 10.0 }).is_ok() };
+    let mut log: Vec<i128> = FIRED.with(|l| l.borrow().clone());
+    if via_all { log.sort(); }
+    let mut out = vec![ok as i128, csm.len() as i128];
+    out.extend(log);
+    out
+}
+
 pub fn run(args: &[i128]) -> Vec<i128> {
     // pools
     let ctx: &'static BaseContext = Box::leak(Box::new(Context::with_capacity(1, "csm", 2)));
